@@ -427,17 +427,17 @@ S(id="RG.rule", props=["C10", "C12"], spec="rgrule.spec.c", harness="h_rg_rule",
            "R7: the loop body is cut from yaep_read_grammar on every run; the loop header and the four statements before it (error symbol) are not covered by this set",
            "rule_new_start as proved by T.copy.rule, rule_new_symb_add / rule_new_stop by T.rule.add / T.rule.stop (restated without the storage)"])
 S(id="T.rule.add", props=["C12", "C10"], spec="symtab.spec.c", harness="h_rule_add", mode="L", canaries=2, enforce=["rule_new_symb_add/rule_add_c"],
-  replace=["_OS_expand_memory/os_expand_keep_c"], functions=["rule_new_symb_add"], params={"quick": {"CAP": 8, "RCAP": 3}, "thorough": {"CAP": 32, "RCAP": 6}}, mem=32, timeout=1500,
-  bound="the open array holds <= RCAP (3, thorough 6) symbols before the call; the function has no loop",
+  replace=["_OS_expand_memory/os_expand_keep_c"], functions=["rule_new_symb_add"], params={"quick": {"CAP": 8, "RCAP": 3}, "thorough": {"CAP": 8, "RCAP": 3}}, mem=32, timeout=1500, tier="thorough",
+  bound="the open array holds <= 3 symbols before the call; the function has no loop (thorough tier only: 5 minutes)",
   what="the open right-hand side array on top of the rule storage grows by one: the symbol replaces the end marker and a new end marker follows; everything that was in the array "
        "stays, byte for byte (ghost byte), also when the array moves to a new segment; rhs points at it; rhs_len and n_rhs_lens go up by one; all writes stay inside the storage",
   assumes=["the segment contract is the one proved by OS.expand, restated with a ghost byte of the top object"])
 S(id="T.rule.stop", props=["C12", "C10"], spec="symtab.spec.c", harness="h_rule_stop", mode="U", loops=True, n_loops=1, canaries=2, enforce=["rule_new_stop/rule_stop_c"],
   replace=["_OS_expand_memory/os_expand_use_c"], functions=["rule_new_stop"], params={"quick": {"CAP": 8, "RCAP": 3}, "thorough": {"CAP": 32, "RCAP": 6}}, mem=32, timeout=1500,
-  what="the right-hand side array is finished where it is (not moved, not changed: ghost byte); the order array is a new object of rhs_len entries, all -1 (NULL for an empty "
+  what="the right-hand side array is finished where it is (not moved, not changed: ghost byte); the order array is a new object of rhs_len entries, all -1 (an empty object for an empty "
        "right-hand side), not overlapping the array; the top object of the rule storage is empty again",
   assumes=["the segment contract is the one proved by OS.expand, restated for an empty top object", "array size capped by RCAP symbols (object size only; the loop is closed by its contract)"])
 S(id="T.copy.rule", props=["C13", "C12"], spec="symtab.spec.c", harness="h_rule_start", mode="L", canaries=2, enforce=["rule_new_start/rule_start_c"],
-  replace=["_OS_add_string_function/os_add_string_use_c", "_OS_expand_memory/os_expand_use_c"], functions=["rule_new_start"], params={"quick": {"CAP": 8}, "thorough": {"CAP": 32}}, mem=48, timeout=1500,
+  replace=["_OS_add_string_function/os_add_string_use_c", "_OS_expand_memory/os_expand_use_c"], functions=["rule_new_start"], params={"quick": {"CAP": 8}, "thorough": {"CAP": 8}}, mem=48, timeout=1500, tier="thorough",
   what="the rule record is linked into the rule list and its left-hand side's list; the abstract node name is a COPY inside the grammar's rule storage (different object, equal bytes), "
        "its cost is stored (0 without abstract node); the right-hand side starts as an open array holding the NULL end marker")
